@@ -19,6 +19,7 @@ import (
 	"os"
 	"path/filepath"
 	"go/types"
+	"sort"
 	"strings"
 
 	"golang.org/x/tools/go/ssa"
@@ -264,11 +265,37 @@ func vAssume(b bool) {
 func vCover(b bool) {}
 `
 
-// runOracles searches for a failing input of the given oracles (all in one package).
+// runOracles searches for a failing input of the given oracles: one test process per package the
+// oracles live in (in a fixed order), the first failing input wins.
 func runOracles(o *CheckOpts, prog *Program, oracles []*ssa.Function, budgetS int) (*oracleHit, string) {
 	if len(oracles) == 0 {
 		return nil, "no oracle covers this obligation"
 	}
+	byPkg := map[string][]*ssa.Function{}
+	var paths []string
+	for _, fn := range oracles {
+		pp := fn.Pkg.Pkg.Path()
+		if _, ok := byPkg[pp]; !ok {
+			paths = append(paths, pp)
+		}
+		byPkg[pp] = append(byPkg[pp], fn)
+	}
+	sort.Strings(paths)
+	var whys []string
+	for _, pp := range paths {
+		group := byPkg[pp]
+		sort.Slice(group, func(i, j int) bool { return group[i].Name() < group[j].Name() })
+		hit, why := runOraclesPkg(o, prog, group, budgetS)
+		if hit != nil {
+			return hit, why
+		}
+		whys = append(whys, why)
+	}
+	return nil, strings.Join(whys, "; ")
+}
+
+// runOraclesPkg: the oracles of one package.
+func runOraclesPkg(o *CheckOpts, prog *Program, oracles []*ssa.Function, budgetS int) (*oracleHit, string) {
 	pkg := oracles[0].Pkg.Pkg
 	imports := map[string]string{}
 	qual := func(p *types.Package) string {
